@@ -297,6 +297,14 @@ func (e *evalEnv) eval(n *Node) *Val {
 				hfr.reach, hfr.st = saveReach, saveSt
 				vc.curLets = saveLets
 			})
+			if isHarnessRoot(e.fr) {
+				// harness roots: a callee's quantified postcondition about a short byte range (a length
+				// field of one to four bytes) is also instantiated at its first four indices
+				h := vc.hyps[len(vc.hyps)-1]
+				for _, c := range []string{"0", "1", "2", "3"} {
+					h(c)
+				}
+			}
 		}
 		k := vc.name("q_" + n.Name)
 		e.bound[n.Name] = k
